@@ -85,11 +85,7 @@ def run(R):
         bad = None
         rets = [Pos(fn.exit, 0)]
         # remove the edge 'waitCommon() true' and ask whether the exit is reachable without the blocking wait
-        removed = set()
-        for b, t in fn.branch_blocks():
-            a = strip_casts(t["cond"])
-            if isinstance(a, dict) and a.get("k") == "call" and a.get("name") == "waitCommon":
-                removed.add((b, 0))
+        removed = fn.edges_where(lambda a: isinstance(strip_casts(a), dict) and strip_casts(a).get("k") == "call" and strip_casts(a).get("name") == "waitCommon", True)
         path = fn.path_to_exit_avoiding(Pos(fn.entry, -1), blocks_until_ready, removed_edges=removed)
         R.ob("C18.wait-ready", fn, fn.loc, path is None and bool(removed), "returns only after waitCommon() == true or CompletionEventImpl::wait(kReady)" if path is None else
              "wait() can return without having observed kReady (e.g. after a single futex wake)", sitekey="wait", why=WHY, path=fn.describe_path(path) if path else None)
